@@ -1626,8 +1626,12 @@ class AttrParser(BaseParser):
                 "u": Signedness.UNSIGNED,
                 "i": Signedness.SIGNLESS,
             }
+            width = match.group(1)
+            # Same limit as MLIR; it also keeps the value range computable.
+            if len(width) > 8 or int(width) > 16777215:
+                self.raise_error("integer bitwidth is limited to 16777215 bits")
             self._consume_token()
-            return IntegerType(int(match.group(1)), signedness[name[0]])
+            return IntegerType(int(width), signedness[name[0]])
 
         # Float type
         if (float_type := self._builtin_float_types.get(name)) is not None:
